@@ -3,6 +3,7 @@ import PgsVerif.Model.CleanName
 import PgsVerif.Model.NameSplit
 import PgsVerif.Model.Params
 import PgsVerif.Model.Comment
+import PgsVerif.Model.Context
 /-
   JSON glue: one `Engine` per correspondence.  Only decoding/encoding lives here; every function
   called is the very definition the theorems in `PgsVerif/Props` are about.
@@ -110,7 +111,33 @@ def engine : Engine :=
   mkEngine (I := In) (O := List Line) (fun i => model i.wrap i.runes) (fun _ => true) (fun i o => judge i.wrap i.runes o)
 end C20
 
+/-! ### C18 build context -/
+namespace C18
+structure OpJ where
+  k : String
+  a : Bytes
+deriving FromJson, ToJson
+structure In where
+  output : Bytes
+  params : Nat
+  ops : List OpJ
+  via : String      -- "ctx" or "module" (harness only: the same model serves both)
+deriving FromJson, ToJson
+deriving instance FromJson, ToJson for Snap
+def OpJ.toOp (o : OpJ) : Op :=
+  match o.k with
+  | "push" => .push o.a
+  | "pushDir" => .pushDir o.a
+  | "pop" => .pop
+  | _ => .popDir
+def engine : Engine :=
+  mkEngine (I := In) (O := List Snap)
+    (fun i => run (mkRoot i.output i.params) (i.ops.map OpJ.toOp))
+    (fun i => (run (mkRoot i.output i.params) (i.ops.map OpJ.toOp)).length == i.ops.length)   -- never pops the root
+    (fun i o => judge i.output i.params (i.ops.map OpJ.toOp) o)
+end C18
+
 def engines : List (String × Engine) :=
-  [ ("c11", C11.engine), ("fp", FP.engine), ("c15", C15.engine), ("c19", C19.engine), ("c20", C20.engine) ]
+  [ ("c11", C11.engine), ("fp", FP.engine), ("c15", C15.engine), ("c19", C19.engine), ("c20", C20.engine), ("c18", C18.engine) ]
 
 end Pgs
